@@ -167,7 +167,7 @@ pub fn cse_detect(fe: &BodyForm) -> Result<Vec<CSEDetectionWithoutConditions>, C
         }
     }
 
-    let detections: Vec<CSEDetectionWithoutConditions> = by_hash
+    let mut detections: Vec<CSEDetectionWithoutConditions> = by_hash
         .into_iter()
         .filter_map(|(k, v)| {
             if v.len() < 2 {
@@ -188,6 +188,11 @@ pub fn cse_detect(fe: &BodyForm) -> Result<Vec<CSEDetectionWithoutConditions>, C
             })
         })
         .collect();
+
+    // The hashes cover renamed (generated) variable names, so their order
+    // varies with the state of the name generator.  Order the detections by
+    // where they first occur in the expression instead.
+    detections.sort_by(|a, b| a.instances[0].path.cmp(&b.instances[0].path));
 
     let useful_detections = detections
         .iter()
